@@ -113,7 +113,7 @@ def check(ctx):
                                   and len(t.ast.args) == 2 and isinstance(t.ast.args[1], ast.Name) and t.ast.args[1].id == "type"
                                   for t, tr in dominating_guards(an, f, n))
                 if from_storage and not_a_class:
-                    ctx.ob("names.identifier", f, n.ast, False,
+                    ctx.ob("names.identifier", f, "%s() of a storage type that is not a plain class" % n.ast.func.id, False,
                            "%s renders a field's storage type that is not a plain class (typing.List[C], typing.Dict[K, V]) with %s(): typing "
                            "spells the arguments by __qualname__, so a function-local config type inside a typed list gives "
                            "'typing.List[mod.f.<locals>.C]' -- not valid Python" % (f.qualname, n.ast.func.id), node=n)
